@@ -21,6 +21,20 @@
 (*                may or may not have happened)                            *)
 (*   Restart      MustStartAsync: loadAsyncSearches (glob *.info), restart *)
 (*                of every request that is not Done                        *)
+(*   Acquire      processRequest, first line: `as.rateLimit <- struct{}{}`. *)
+(*                The goroutine launched by StartSearch / MustStartAsync    *)
+(*                WAITS for one of the `par` (AsyncSearcherConfig           *)
+(*                .Parallelism) worker slots: between the return of         *)
+(*                StartSearch and Acquire the request is "accepted, queued, *)
+(*                not yet picked up" (ph = "queued").  The slot is given    *)
+(*                back when doSearch returns.                               *)
+(*   OccStart, OccAcquire, OccFinish                                        *)
+(*                the NOcc OTHER requests of the same searcher, abstract:   *)
+(*                none -> queued -> run -> fin; they matter through the     *)
+(*                semaphore only (with par < outstanding requests some stay *)
+(*                queued for as long as the running ones take); a crash     *)
+(*                sends every unfinished one back to the queue of the next  *)
+(*                MustStartAsync                                            *)
 (*   NewFrac      a fraction created after the start (never searched)      *)
 (* FetchResult is FetchSearchResult: fold of seq.MergeQPRs over the        *)
 (* final-named .qpr files; SyncResult is Searcher.SearchDocs over the      *)
@@ -51,8 +65,9 @@
 (* done := done /\ resp.Done, seq.MergeQPRs over the answers (decoded by   *)
 (* responseToQPR: the histogram map is always allocated).  PSyncResult is  *)
 (* Ingestor.Search over the same shards, PRefResult the set-level meaning. *)
-(* A shard position in `ghost` has a first replica that never got the      *)
-(* request (it was unreachable at the start) and answers NotFound.         *)
+(* A shard whose holder (see "the start at the proxy" below) is not its     *)
+(* first replica has a first replica that never got the request (it was    *)
+(* unreachable at the start) and answers NotFound.                         *)
 (* DoneRule = "all" is the design and the code (async.go:129); "last" is a *)
 (* spec mutation kept for non-vacuity (AsyncSearch_mut_donelast.cfg): the  *)
 (* flag of the last shard that answered, which TLC must refute.            *)
@@ -63,6 +78,29 @@
 (* .cfg): it is what async_searcher.go:396 did before that fix (interval   *)
 (* hard-coded to 1) and TLC must refute it on a corpus with a shared       *)
 (* document (wrong histogram with a histogram, panic without one).         *)
+(*                                                                         *)
+(* PersistAt = "start" is the design and the code (async_searcher.go:137:  *)
+(* updateSearchInfo BEFORE `go processRequest` and before StartSearch      *)
+(* returns).  "worker" is a spec mutation kept for non-vacuity             *)
+(* (AsyncSearch_mut_latepersist.cfg): StartSearch only registers the       *)
+(* request in memory and the worker persists it once it has a slot - a     *)
+(* request that is still queued at a crash is forgotten; TLC must refute    *)
+(* AckedRequestSurvives.                                                   *)
+(*                                                                         *)
+(* THE START AT THE PROXY (async.go:47-63).  Every shard has NRep replicas; *)
+(* acpt[p][r] says whether replica r of the shard at position p accepts the  *)
+(* StartAsyncSearch call (a store that is down / restarting refuses).  The  *)
+(* replicas of a shard are asked in list order until one accepts (the       *)
+(* Holder); a shard whose replicas ALL refuse ends the loop with an error:  *)
+(* the client gets NO id (PErr), later shards are not asked.  The start     *)
+(* succeeds (PAcked) iff every shard has a holder.  Replicas other than the *)
+(* holder never saw the request and answer NotFound to a fetch.             *)
+(* StartRule = "every" is the design and the code; "ignore" is a spec       *)
+(* mutation kept for non-vacuity (AsyncSearch_mut_startignore.cfg): a shard *)
+(* without a holder is passed over and the id is handed out all the same,   *)
+(* which TLC must refute (PStartedEverywhere / PDoneImpliesSyncResult: the  *)
+(* fetch skips the shard as NotFound and reports done with its documents    *)
+(* missing).                                                               *)
 (***************************************************************************)
 EXTENDS Integers, Sequences, FiniteSets, TLC, Json
 
@@ -79,15 +117,23 @@ CONSTANTS NF,            \* fractions in range when the search is started (captu
           ONF,           \* most captured fractions of an other shard
           ONFs,          \* numbers of captured fractions (0..ONF) of an other shard to consider
           OthCorpora,    \* contents of the other shards' fractions ([1..NOther -> [1..ONF -> SUBSET Docs]]) to consider
-          Ghosts,        \* sets of shard positions whose first replica never got the request, to consider
+          NRep,          \* replicas of every shard
+          StartVecs,     \* which replicas accept the StartAsyncSearch call ([Positions -> [1..NRep -> BOOLEAN]]) to consider
+          StartRule,     \* "every" | "ignore"
           DoneRule,      \* "all" | "last"
-          EmitVec        \* BOOLEAN: print the proxy-level observation of every state in which the client may fetch
+          EmitVec,       \* BOOLEAN: print the proxy-level observation of every state in which the client may fetch
+          EmitStartVec,  \* BOOLEAN: print the outcome of Ingestor.StartAsyncSearch for the vector of accepting replicas
+          Pars,          \* values of AsyncSearcherConfig.Parallelism to consider
+          NOcc,          \* other requests of the same searcher
+          PersistAt,     \* "start" | "worker"
+          CrashPoints    \* "any" | "quiet": (emission for the driver's queue stage) only where no goroutine of the searcher
+                         \* is inside mustWriteFileAtomic and the request waits for its slot or stands before a fraction
 
 VARIABLES st,        \* "up" | "down"
           known,     \* as.requests[id] exists
           done,      \* as.requests[id].Done
           acked,     \* some StartSearch call has returned nil
-          ph,        \* where the request's goroutine is: none start scan frac mark fin
+          ph,        \* where the request's goroutine is: none start queued scan frac mark fin
           todo,      \* captured fractions still to be processed by this doSearch
           wr,        \* in-flight mustWriteFileAtomic: [t, f, new, n]
           fs,        \* directory of the async searcher as of the last completed operation batch
@@ -100,11 +146,14 @@ VARIABLES st,        \* "up" | "down"
           oth,       \* the other shards: [ph: "none" (not started) | "run" | "done", k: processed fractions (a prefix of its list)]
           on,        \* captured fractions of every other shard
           pos,       \* position of the detailed store in HotStores.Shards
-          ghost,     \* positions of the shards whose first replica answers NotFound
-          ocorpus    \* contents of the other shards' fractions
+          acpt,      \* acpt[p][r]: replica r of the shard at position p accepts the StartAsyncSearch call
+          ocorpus,   \* contents of the other shards' fractions
+          par,       \* AsyncSearcherConfig.Parallelism: capacity of as.rateLimit
+          occ        \* the other requests of this searcher: "none" | "queued" | "run" | "fin"
 
-pvars == <<oth, on, pos, ghost, ocorpus>>
-vars == <<st, known, done, acked, ph, todo, wr, fs, extra, ncrash, persisted, searched, hist, corpus, hi, oth, on, pos, ghost, ocorpus>>
+pvars == <<oth, on, pos, acpt, ocorpus>>
+qvars == <<par, occ>>
+vars == <<st, known, done, acked, ph, todo, wr, fs, extra, ncrash, persisted, searched, hist, corpus, hi, oth, on, pos, acpt, ocorpus, par, occ>>
 
 Docs == 1..NDocs
 Fracs == 1..(NF + 1)                 \* NF + 1 is the fraction created after the start
@@ -231,14 +280,30 @@ PosOf(i) == IF i < pos THEN i ELSE i + 1
 \* (a bulk re-delivered to another shard), and every content
 OthDup == {[i \in Others |-> [f \in 1..ONF |-> {((i + f) % NDocs) + 1}]]}
 OthAll == [Others -> [1..ONF -> SUBSET Docs]]
-NoGhost == {{}}
-AnyGhost == SUBSET Positions
+Reps == 1..NRep
+\* vectors of accepting replicas: every replica accepts; every shard has a holder, the first or (the first
+\* replica was unreachable at the start) the second replica; every vector
+AccFirst == {[p \in Positions |-> [r \in Reps |-> TRUE]]}
+AccGhost == [Positions -> {[r \in Reps |-> TRUE], [r \in Reps |-> r > 1]}]
+AccAny == [Positions -> [Reps -> BOOLEAN]]
 
-\* Ingestor.StartAsyncSearch (async.go:30): the shards are started one after the other; an error
-\* ends the loop (the client gets no id)
+\* Ingestor.StartAsyncSearch (async.go:30).  The loop over one shard's replicas (async.go:51-59): an
+\* error -> next replica, nil -> break; the holder is the first replica that accepts
+Holder(p) == IF \E r \in Reps : acpt[p][r]
+             THEN CHOOSE r \in Reps : acpt[p][r] /\ \A q \in 1..(r - 1) : ~acpt[p][q]
+             ELSE 0
+Refused(p) == Holder(p) = 0                        \* err of the last replica is still set after the loop
+\* the loop over the shards (async.go:47): the shards are started one after the other; a shard that
+\* refused ends the loop (async.go:60: the client gets the error and no id)
 Started(p) == IF p = pos THEN acked ELSE oth[OthAt(p)].ph # "none"
-MayStart(p) == \A q \in 1..(p - 1) : Started(q)
-PAcked == \A p \in Positions : Started(p)          \* StartAsyncSearch has returned the id
+Passed(p) == Started(p) \/ (StartRule = "ignore" /\ Refused(p))
+Reached(p) == \A q \in 1..(p - 1) : Passed(q)       \* the loop has come to shard p
+MayStart(p) == Reached(p) /\ ~Refused(p)
+PErr == StartRule = "every" /\ \E p \in Positions : Reached(p) /\ Refused(p)   \* StartAsyncSearch has returned the error
+PErrShard == IF PErr THEN CHOOSE p \in Positions : Reached(p) /\ Refused(p) ELSE 0
+PAcked == \A p \in Positions : Passed(p)           \* StartAsyncSearch has returned the id
+\* the StartAsyncSearch calls a replica has received when the loop is over
+Calls(p, r) == IF Reached(p) /\ (PErrShard = 0 \/ p <= PErrShard) /\ r <= (IF Refused(p) THEN NRep ELSE Holder(p)) THEN 1 ELSE 0
 
 \* an other shard's FetchSearchResult / Searcher.SearchDocs: the same folds as above over its fractions
 RECURSIVE OFold(_, _, _, _, _)
@@ -253,7 +318,8 @@ RealResp(p) ==
   IF p = pos THEN [found |-> known, done |-> done, qpr |-> FetchFold(EmptyQPR(FALSE), 1, Disk)]
   ELSE LET i == OthAt(p) IN
        [found |-> oth[i].ph # "none", done |-> oth[i].ph = "done", qpr |-> OFold(EmptyQPR(FALSE), i, 1, oth[i].k, FI)]
-Replicas(p) == IF p \in ghost THEN <<NotFoundResp, RealResp(p)>> ELSE <<RealResp(p)>>
+\* only the holder has got the request; every other replica has never heard of it
+Replicas(p) == [r \in Reps |-> IF r = Holder(p) THEN RealResp(p) ELSE NotFoundResp]
 \* the loop over one shard's replicas (async.go:108-120): NotFound -> next replica, an answer -> break
 RECURSIVE FirstFound(_)
 FirstFound(rs) == IF rs = <<>> THEN NotFoundResp ELSE IF Head(rs).found THEN Head(rs) ELSE FirstFound(Tail(rs))
@@ -296,15 +362,20 @@ Init == /\ st = "up" /\ known = FALSE /\ done = FALSE /\ acked = FALSE /\ ph = "
         /\ searched = [f \in Fracs |-> 0] /\ hist = <<>>
         /\ corpus \in Corpora /\ hi \in Intervals
         /\ oth = [i \in Others |-> [ph |-> "none", k |-> 0]] /\ on \in [Others -> ONFs]
-        /\ pos \in 1..NShards /\ ghost \in Ghosts /\ ocorpus \in OthCorpora
+        /\ pos \in 1..NShards /\ acpt \in StartVecs /\ ocorpus \in OthCorpora
+        /\ par \in Pars /\ occ = [i \in 1..NOcc |-> "none"]
 
 \* StartSearch (async_searcher.go:104): unknown id -> persist info(Done=false)
 Start == /\ st = "up" /\ ~known /\ ph = "none" /\ wr = NoWrite /\ MayStart(pos)
-         /\ ph' = "start" /\ wr' = [t |-> "info", f |-> 0, new |-> "nd", n |-> 0]
-         /\ UNCHANGED <<st, known, done, acked, todo, fs, extra, ncrash, persisted, searched, hist, corpus, hi, oth, on, pos, ghost, ocorpus>>
+         /\ IF PersistAt = "start"
+              THEN /\ ph' = "start" /\ wr' = [t |-> "info", f |-> 0, new |-> "nd", n |-> 0]
+                   /\ UNCHANGED <<known, acked>>
+              ELSE \* (mutation) as.requests[id] = info; go processRequest; return nil - nothing on disk yet
+                   /\ known' = TRUE /\ acked' = TRUE /\ ph' = "queued" /\ UNCHANGED wr
+         /\ UNCHANGED <<st, done, todo, fs, extra, ncrash, persisted, searched, hist, corpus, hi, oth, on, pos, acpt, ocorpus, par, occ>>
 \* StartSearch on a known id: "async search already started", return nil
 StartAgain == /\ st = "up" /\ known /\ ~acked /\ acked' = TRUE
-              /\ UNCHANGED <<st, known, done, ph, todo, wr, fs, extra, ncrash, persisted, searched, hist, corpus, hi, oth, on, pos, ghost, ocorpus>>
+              /\ UNCHANGED <<st, known, done, ph, todo, wr, fs, extra, ncrash, persisted, searched, hist, corpus, hi, oth, on, pos, acpt, ocorpus, par, occ>>
 
 \* one operation of mustWriteFileAtomic (async_searcher.go:418); the last one returns
 WStep ==
@@ -314,8 +385,10 @@ WStep ==
             /\ UNCHANGED <<known, done, acked, ph, todo, fs, persisted>>
        ELSE /\ wr' = NoWrite
             /\ fs' = Vol(fs, [wr EXCEPT !.n = @ + 1])
-            /\ (CASE ph = "start" -> \* updateSearchInfo: as.requests[id] = info; go processRequest; return nil
-                       /\ known' = TRUE /\ done' = FALSE /\ acked' = TRUE /\ ph' = "scan"
+            /\ (CASE ph = "start" -> \* updateSearchInfo: as.requests[id] = info; go processRequest; return nil:
+                                     \* the request is accepted, its goroutine waits for a worker slot
+                       /\ known' = TRUE /\ done' = FALSE /\ acked' = TRUE
+                       /\ ph' = IF PersistAt = "start" THEN "queued" ELSE "scan"
                        /\ UNCHANGED <<todo, persisted>>
                   [] ph = "frac" -> \* processFrac returned; next fraction of the loop
                        /\ persisted' = persisted \cup {wr.f} /\ todo' = Tail(todo)
@@ -324,61 +397,89 @@ WStep ==
                   [] OTHER -> \* ph = "mark": as.requests[id] = state with Done
                        /\ done' = TRUE /\ ph' = "fin"
                        /\ UNCHANGED <<known, acked, todo, persisted>>)
-  /\ UNCHANGED <<st, extra, ncrash, searched, hist, corpus, hi, oth, on, pos, ghost, ocorpus>>
+  /\ UNCHANGED <<st, extra, ncrash, searched, hist, corpus, hi, oth, on, pos, acpt, ocorpus, par, occ>>
+
+\* processRequest (async_searcher.go:168): `as.rateLimit <- struct{}{}` blocks while all `par` slots are
+\* taken; the slot is held until doSearch has returned
+Occs == 1..NOcc
+Holding == ph \in {"scan", "frac", "mark"} \/ (PersistAt = "worker" /\ ph = "start")
+Used == Cardinality({i \in Occs : occ[i] = "run"}) + (IF Holding THEN 1 ELSE 0)
+Acquire == /\ st = "up" /\ ph = "queued" /\ wr = NoWrite /\ Used < par
+           /\ IF PersistAt = "start"
+                THEN ph' = "scan" /\ UNCHANGED wr
+                ELSE \* (mutation) the worker persists the request right before it starts searching
+                     ph' = "start" /\ wr' = [t |-> "info", f |-> 0, new |-> "nd", n |-> 0]
+           /\ UNCHANGED <<st, known, done, acked, todo, fs, extra, ncrash, persisted, searched, hist, corpus, hi, oth, on, pos, acpt, ocorpus, par, occ>>
+\* the other requests of this searcher (StartSearch / processRequest / doSearch returned), in the order of their ids
+OccStart(i) == /\ st = "up" /\ occ[i] = "none" /\ (IF i = 1 THEN TRUE ELSE occ[i - 1] # "none")
+               /\ occ' = [occ EXCEPT ![i] = "queued"]
+               /\ UNCHANGED <<st, known, done, acked, ph, todo, wr, fs, extra, ncrash, persisted, searched, hist, corpus, hi, oth, on, pos, acpt, ocorpus, par>>
+OccAcquire(i) == /\ st = "up" /\ occ[i] = "queued" /\ Used < par
+                 /\ occ' = [occ EXCEPT ![i] = "run"]
+                 /\ UNCHANGED <<st, known, done, acked, ph, todo, wr, fs, extra, ncrash, persisted, searched, hist, corpus, hi, oth, on, pos, acpt, ocorpus, par>>
+OccFinish(i) == /\ st = "up" /\ occ[i] = "run"
+                /\ occ' = [occ EXCEPT ![i] = "fin"]
+                /\ UNCHANGED <<st, known, done, acked, ph, todo, wr, fs, extra, ncrash, persisted, searched, hist, corpus, hi, oth, on, pos, acpt, ocorpus, par>>
+OccProgress == \E i \in Occs : OccStart(i) \/ OccAcquire(i) \/ OccFinish(i)
 
 \* doSearch (async_searcher.go:178): processed fractions are those with a final-named .qpr
 Scan == /\ st = "up" /\ ph = "scan"
         /\ LET processed == {f \in Fracs : Disk.qpr[f] # "absent"}
                rest == SelectSeq(Captured, LAMBDA f : f \notin processed) IN
            /\ todo' = rest /\ ph' = IF rest = <<>> THEN "mark" ELSE "frac"
-        /\ UNCHANGED <<st, known, done, acked, wr, fs, extra, ncrash, persisted, searched, hist, corpus, hi, oth, on, pos, ghost, ocorpus>>
+        /\ UNCHANGED <<st, known, done, acked, wr, fs, extra, ncrash, persisted, searched, hist, corpus, hi, oth, on, pos, acpt, ocorpus, par, occ>>
 \* processFrac (async_searcher.go:240): search the fraction, then persist the partial result
 BeginFrac == /\ st = "up" /\ ph = "frac" /\ wr = NoWrite
              /\ searched' = [searched EXCEPT ![Head(todo)] = @ + 1]
              /\ wr' = [t |-> "qpr", f |-> Head(todo), new |-> "full", n |-> 0]
-             /\ UNCHANGED <<st, known, done, acked, ph, todo, fs, extra, ncrash, persisted, hist, corpus, hi, oth, on, pos, ghost, ocorpus>>
+             /\ UNCHANGED <<st, known, done, acked, ph, todo, fs, extra, ncrash, persisted, hist, corpus, hi, oth, on, pos, acpt, ocorpus, par, occ>>
 BeginMark == /\ st = "up" /\ ph = "mark" /\ wr = NoWrite
              /\ wr' = [t |-> "info", f |-> 0, new |-> "d", n |-> 0]
-             /\ UNCHANGED <<st, known, done, acked, ph, todo, fs, extra, ncrash, persisted, searched, hist, corpus, hi, oth, on, pos, ghost, ocorpus>>
+             /\ UNCHANGED <<st, known, done, acked, ph, todo, fs, extra, ncrash, persisted, searched, hist, corpus, hi, oth, on, pos, acpt, ocorpus, par, occ>>
 
 Rec(x) == IF Emit THEN Append(hist, x) ELSE hist      \* histories are only kept when they are emitted
 
 \* a fraction that did not exist at the start appears (rotation + ingestion); only while the
-\* request waits in Scan, which is where it could be picked up by mistake
-NewFrac == /\ AllowNewFrac /\ st = "up" /\ ph = "scan" /\ ~extra
-           /\ extra' = TRUE /\ hist' = Rec([ev |-> "newfrac", at |-> [ph |-> ph, f |-> 0, n |-> 0], img |-> Disk])
-           /\ UNCHANGED <<st, known, done, acked, ph, todo, wr, fs, ncrash, persisted, searched, corpus, hi, oth, on, pos, ghost, ocorpus>>
+\* request waits for its slot or in Scan, which is where it could be picked up by mistake
+NewFrac == /\ AllowNewFrac /\ st = "up" /\ ph \in {"queued", "scan"} /\ ~extra
+           /\ extra' = TRUE /\ hist' = Rec([ev |-> "newfrac", at |-> [ph |-> ph, f |-> 0, n |-> 0], img |-> Disk, occ |-> occ])
+           /\ UNCHANGED <<st, known, done, acked, ph, todo, wr, fs, ncrash, persisted, searched, corpus, hi, oth, on, pos, acpt, ocorpus, par, occ>>
 
 Where == [ph |-> ph, f |-> IF wr.t = "qpr" THEN wr.f ELSE IF ph = "frac" THEN Head(todo) ELSE 0,
           n |-> IF wr.t = "none" THEN 0 - 1 ELSE wr.n]
 Crash == /\ st = "up" /\ ncrash < MaxCrashes /\ ph # "none"
+         /\ (CrashPoints = "any" \/ (wr = NoWrite /\ ph \in {"queued", "frac"}))
          /\ \E img \in CrashSet(fs, wr) :
               /\ fs' = img
-              /\ hist' = Rec([ev |-> "crash", at |-> Where, img |-> img])
+              /\ hist' = Rec([ev |-> "crash", at |-> Where, img |-> img, occ |-> occ])
          /\ st' = "down" /\ known' = FALSE /\ done' = FALSE /\ ph' = "none" /\ todo' = <<>> /\ wr' = NoWrite
          /\ ncrash' = ncrash + 1
-         /\ UNCHANGED <<acked, extra, persisted, searched, corpus, hi, oth, on, pos, ghost, ocorpus>>
-\* MustStartAsync (async_searcher.go:52): a final-named .info that decodes is a known request
+         \* every other request that is not finished is persisted (this module's AckedRequestSurvives): the next
+         \* MustStartAsync launches its goroutine again, which queues for a slot
+         /\ occ' = [i \in Occs |-> IF occ[i] \in {"queued", "run"} THEN "queued" ELSE occ[i]]
+         /\ UNCHANGED <<acked, extra, persisted, searched, corpus, hi, oth, on, pos, acpt, ocorpus, par>>
+\* MustStartAsync (async_searcher.go:52): a final-named .info that decodes is a known request;
+\* `go as.processRequest(id)` for every request that is not done: it queues for a slot
 Restart == /\ st = "down" /\ st' = "up"
            /\ known' = (fs.info \in {"nd", "d"}) /\ done' = (fs.info = "d")
-           /\ ph' = IF fs.info = "nd" THEN "scan" ELSE IF fs.info = "d" THEN "fin" ELSE "none"
-           /\ UNCHANGED <<acked, todo, wr, fs, extra, ncrash, persisted, searched, hist, corpus, hi, oth, on, pos, ghost, ocorpus>>
+           /\ ph' = IF fs.info = "nd" THEN "queued" ELSE IF fs.info = "d" THEN "fin" ELSE "none"
+           /\ UNCHANGED <<acked, todo, wr, fs, extra, ncrash, persisted, searched, hist, corpus, hi, oth, on, pos, acpt, ocorpus, par, occ>>
 
 \* the other shards.  StartSearch with no fraction in range is done at once (async_searcher.go:126);
 \* a restart of an other shard changes nothing the proxy can see (AckedRequestSurvives,
 \* PersistedPartialsSurvive, DoneIsDurable of this module), so it is not an action here
 OStart(i) == /\ oth[i].ph = "none" /\ MayStart(PosOf(i))
              /\ oth' = [oth EXCEPT ![i] = [ph |-> IF on[i] = 0 THEN "done" ELSE "run", k |-> 0]]
-             /\ UNCHANGED <<st, known, done, acked, ph, todo, wr, fs, extra, ncrash, persisted, searched, hist, corpus, hi, on, pos, ghost, ocorpus>>
+             /\ UNCHANGED <<st, known, done, acked, ph, todo, wr, fs, extra, ncrash, persisted, searched, hist, corpus, hi, on, pos, acpt, ocorpus, par, occ>>
 OStep(i) == /\ oth[i].ph = "run" /\ oth[i].k < on[i]
             /\ oth' = [oth EXCEPT ![i].k = @ + 1]
-            /\ UNCHANGED <<st, known, done, acked, ph, todo, wr, fs, extra, ncrash, persisted, searched, hist, corpus, hi, on, pos, ghost, ocorpus>>
+            /\ UNCHANGED <<st, known, done, acked, ph, todo, wr, fs, extra, ncrash, persisted, searched, hist, corpus, hi, on, pos, acpt, ocorpus, par, occ>>
 OMark(i) == /\ oth[i].ph = "run" /\ oth[i].k = on[i]
             /\ oth' = [oth EXCEPT ![i].ph = "done"]
-            /\ UNCHANGED <<st, known, done, acked, ph, todo, wr, fs, extra, ncrash, persisted, searched, hist, corpus, hi, on, pos, ghost, ocorpus>>
+            /\ UNCHANGED <<st, known, done, acked, ph, todo, wr, fs, extra, ncrash, persisted, searched, hist, corpus, hi, on, pos, acpt, ocorpus, par, occ>>
 OProgress == \E i \in Others : OStart(i) \/ OStep(i) \/ OMark(i)
 
-Progress == Start \/ StartAgain \/ WStep \/ Scan \/ BeginFrac \/ BeginMark \/ Restart \/ OProgress
+Progress == Start \/ StartAgain \/ WStep \/ Acquire \/ Scan \/ BeginFrac \/ BeginMark \/ Restart \/ OProgress \/ OccProgress
 Next == Progress \/ NewFrac \/ Crash
 Spec == Init /\ [][Next]_vars
 FairSpec == Spec /\ WF_vars(Progress)
@@ -386,7 +487,8 @@ FairSpec == Spec /\ WF_vars(Progress)
 \* ------------------------------------------------------------------ properties
 Contents == {"absent", "empty", "torn", "nd", "d", "full"}
 TypeOK == /\ st \in {"up", "down"} /\ known \in BOOLEAN /\ done \in BOOLEAN /\ acked \in BOOLEAN
-          /\ ph \in {"none", "start", "scan", "frac", "mark", "fin"}
+          /\ ph \in {"none", "start", "queued", "scan", "frac", "mark", "fin"}
+          /\ par \in Pars /\ \A i \in Occs : occ[i] \in {"none", "queued", "run", "fin"}
           /\ wr.t \in {"none", "info", "qpr"} /\ wr.n \in 0..Len(WriteOrder)
           /\ fs.info \in Contents /\ fs.itmp \in Contents
           /\ \A f \in Fracs : fs.qpr[f] \in Contents /\ fs.qtmp[f] \in Contents
@@ -405,6 +507,11 @@ PartialWithinFinal == (st = "up" /\ known) => (~FetchResult.panic /\ FetchResult
 
 \* the request and the partial results already computed survive
 AckedRequestSurvives == acked => fs.info \in {"nd", "d"}
+\* in particular a request that FetchSearchResult knows, and one that still waits for a worker slot (however
+\* long the searches before it take), is on disk; the semaphore is respected
+KnownIsPersisted == (st = "up" /\ known) => fs.info \in {"nd", "d"}
+QueuedIsPersisted == ph = "queued" => (known /\ ~done /\ fs.info = "nd")
+SlotsBounded == Used <= par
 PersistedPartialsSurvive == \A f \in persisted : fs.qpr[f] = "full"
 DoneIsDurable == (st = "up" /\ done) => (fs.info = "d" /\ \A f \in 1..NF : fs.qpr[f] = "full")
 \* nothing lost, nothing duplicated, nothing foreign: exactly the captured fractions have a partial
@@ -423,7 +530,7 @@ EventuallyDone == acked ~> (st = "up" /\ done)
 \* down makes FetchAsyncSearchResult fail with the transport error: no answer, no claim)
 PAnswers == st = "up" /\ PAcked
 PTypeOK == /\ \A i \in Others : oth[i].ph \in {"none", "run", "done"} /\ oth[i].k \in 0..on[i]
-           /\ pos \in Positions /\ ghost \subseteq Positions
+           /\ pos \in Positions /\ acpt \in [Positions -> [Reps -> BOOLEAN]]
 \* (the properties take the two folds as arguments so that PDesign evaluates them once per state:
 \* TLC evaluates every INVARIANT of a cfg on its own)
 \* THE property at the proxy: a done answer is the synchronous search over all shards
@@ -435,6 +542,15 @@ PUnion(pf) == PAnswers => pf.qpr.ids = UNION {ShardResp(p).qpr.ids : p \in Posit
 \* done is reported exactly when every shard is done, whatever the order of the shard list
 PDoneIff(pf) == PAnswers => (pf.done <=> \A p \in Positions : RealResp(p).found /\ RealResp(p).done)
 
+\* the start: the client gets the id iff every shard has a replica that accepted the request - then the
+\* request is on every shard; otherwise it gets the error (and no id), and no later shard was asked
+PStartedEverywhere == PAcked => \A p \in Positions : Started(p)
+PStartIffAccepted == /\ PAcked => \A p \in Positions : \E r \in Reps : acpt[p][r]
+                     /\ PErr => (~PAcked /\ Refused(PErrShard) /\ \A p \in Positions : Started(p) => p < PErrShard)
+                     /\ (\A p \in Positions : ~Refused(p)) => ~PErr
+                     /\ ~(PAcked /\ PErr)
+PStartReturns == <>(PAcked \/ PErr)
+
 PDoneImpliesSyncResult == PDoneSync(PFetch, PSyncResult)
 PSyncIsRef == PSyncResult = PRefResult
 PPartialWithinFinal == PWithin(PFetch, PSyncResult)
@@ -443,6 +559,7 @@ PDoneIffAllDone == PDoneIff(PFetch)
 PDesign == LET pf == PFetch
                ps == PSyncResult IN
            PDoneSync(pf, ps) /\ ps = PRefResult /\ PWithin(pf, ps) /\ PUnion(pf) /\ PDoneIff(pf)
+           /\ PStartedEverywhere /\ PStartIffAccepted
 PDoneIsStable == [][(PAnswers /\ st' = "up" /\ PFetch.done) => PFetch'.done]_vars
 PEventuallyDone == PAcked ~> (st = "up" /\ LET pf == PFetch IN pf.any /\ pf.done)
 
@@ -452,8 +569,9 @@ PEventuallyDone == PAcked ~> (st = "up" /\ LET pf == PFetch IN pf.any /\ pf.done
 Img(d) == [info |-> d.info, itmp |-> d.itmp, qpr |-> [f \in 1..(NF + 1) |-> d.qpr[f]], qtmp |-> [f \in 1..(NF + 1) |-> d.qtmp[f]]]
 EmitDone ==
   ~Emit \/ ~(st = "up" /\ done /\ ph = "fin" /\ wr = NoWrite) \/
-  PrintT(<<"CASE", ToJson([nf |-> NF, acked |-> acked, extra |-> extra,
-                           steps |-> [i \in 1..Len(hist) |-> [ev |-> hist[i].ev, at |-> hist[i].at, img |-> Img(hist[i].img)]],
+  PrintT(<<"CASE", ToJson([nf |-> NF, acked |-> acked, extra |-> extra, par |-> par,
+                           steps |-> [i \in 1..Len(hist) |-> [ev |-> hist[i].ev, at |-> hist[i].at, img |-> Img(hist[i].img),
+                                                              occ |-> [k \in Occs |-> hist[i].occ[k]]]],
                            final |-> Img(Disk), order |-> WriteOrder])>>)
 \* one proxy-level observation per state in which the client may fetch: per shard (in list order)
 \* its captured / processed fractions and done flag, and the answer of FetchAsyncSearchResult
@@ -464,9 +582,18 @@ EmitPVec ==
   LET pf == PFetch
       ps == PSyncResult IN
   PrintT(<<"CASE", ToJson([ns |-> NShards, shards |-> [p \in Positions |-> ShardObs(p)],
-                           ghost |-> [p \in Positions |-> p \in ghost],
+                           ghost |-> [p \in Positions |-> Holder(p) > 1],
                            found |-> pf.any, done |-> pf.done,
                            sync |-> Res(pf.qpr) = ps,
                            union |-> pf.qpr.ids = UNION {ShardResp(p).qpr.ids : p \in Positions},
                            within |-> pf.qpr.ids \subseteq ps.ids])>>)
+\* the outcome of Ingestor.StartAsyncSearch for the vector of accepting replicas (printed where the call
+\* has just returned): id or error, the shard the error names, the calls every replica has received
+EmitStart ==
+  ~EmitStartVec \/ ~(PAcked \/ PErr) \/ ncrash > 0 \/ ~(ph \in {"none", "queued"}) \/ (\E i \in Others : oth[i].k > 0) \/
+  PrintT(<<"CASE", ToJson([ns |-> NShards, nrep |-> NRep,
+                           acc |-> [p \in Positions |-> [r \in Reps |-> acpt[p][r]]],
+                           ok |-> PAcked, errShard |-> PErrShard,
+                           calls |-> [p \in Positions |-> [r \in Reps |-> Calls(p, r)]],
+                           started |-> [p \in Positions |-> Started(p)]])>>)
 =============================================================================
